@@ -1439,7 +1439,10 @@ std::ostream& expression_t::print(std::ostream& os, bool old) const
         os << ')';
         break;
 
-    case RATE: get(0).print(os, old) << '\''; break;
+    case RATE:
+        embrace_strict(os, old, get(0), precedence);  // a postfix operator, like [] and .
+        os << '\'';
+        break;
 
     case EF:
         os << "E<> ";
